@@ -1,10 +1,184 @@
+/-
+C14 — RLP encoding is canonical, round-trips, and decoding hostile bytes is safe.  Property theorems only;
+helper lemmas are in ProofsBytes / ProofsUntyped / ProofsTyped.
+
+Objects: `Rlp.decode`/`Rlp.encode` (Common/Rlp.lean: the model of rlp.Stream's checks, tied to the real package
+by correspondence), `decT`/`encT` (Model.lean: the typed codec driven by a schema), `Gen.schemas`
+(GenSchemas.lean: regenerated from /repo's Go types on every run).
+-/
 import YouVerif.C14.Model
 import YouVerif.C14.GenSchemas
+import YouVerif.C14.ProofsUntyped
+import YouVerif.C14.ProofsTyped
 namespace YouVerif.C14.Props
-open YouVerif.C14
+open YouVerif.Common YouVerif.Common.Rlp YouVerif.C14
 
-/-- Every generated schema is `Canonical` except exactly the ones the translator listed. -/
+/-! ## untyped layer: every byte string, every item -/
+
+/-- A successful decode of one item consumes exactly the canonical encoding of that item: the input is
+`encode i ++ rest`.  (Holds for any fuel.) -/
+theorem decodeItem_sound (fuel : Nat) (bs : List UInt8) (i : Item) (rest : List UInt8) :
+    decodeItem fuel bs = .ok (i, rest) → bs = encode i ++ rest :=
+  decodeItem_sound' fuel bs i rest
+
+/-- accept ⇒ canonical, for every byte string: what `decode` accepts is exactly the encoding of what it returns
+(so equal items have one accepted encoding, hence one hash). -/
+theorem encode_decode (bs : List UInt8) (i : Item) : decode bs = .ok i → encode i = bs := by
+  intro h
+  unfold decode at h
+  split at h
+  · simp at h
+  · next i' hd =>
+    simp at h; subst h
+    have := decodeItem_sound' _ _ _ _ hd
+    simpa using this.symm
+  · simp at h
+
+/-- round trip, for every item whose encoding is shorter than 2^64 bytes — the sizes 8 length bytes (and Go's
+uint64 stream sizes) can express; without a size bound the statement is false of any RLP implementation. -/
+theorem decode_encode (i : Item) (h : (encode i).length < 2 ^ 64) : decode (encode i) = .ok i := by
+  have hf := fits_of_len i h
+  have hn := need_le i
+  have := (complete_both (2 * (encode i).length + 2)).1 i [] hf (by omega)
+  simp only [List.append_nil] at this
+  simp [decode, this]
+
+/-- the size guard, logically: every size the decoder accepts is covered by the input that is left — the item's
+encoding plus the untouched rest is the whole input, never more. -/
+theorem decode_consumes_bounded (fuel : Nat) (bs : List UInt8) (i : Item) (rest : List UInt8) :
+    decodeItem fuel bs = .ok (i, rest) → (encode i).length + rest.length = bs.length := by
+  intro h
+  have := decodeItem_sound' fuel bs i rest h
+  rw [this]; simp
+
+/-- what a decoder has to allocate for an accepted input (payload bytes + one unit per node) is at most twice the
+input length: no accepted size field can demand memory far beyond the input. -/
+theorem decode_weight_le (bs : List UInt8) (i : Item) : decode bs = .ok i → weight i ≤ 2 * bs.length := by
+  intro h
+  have := encode_decode bs i h
+  rw [← this]
+  exact weight_le i
+
+/-! ## typed layer: every schema at once (induction on `Ty`) -/
+
+/-- round trip for every schema: a value in the encoder's domain decodes back to itself.
+`Sound` only asks that struct bodies are field lists and `rlp:"nil"` pointers point to non-empty byte arrays. -/
+theorem typed_roundtrip (ty : Ty) (hs : Sound ty = true) (v : Val) (bs : List UInt8)
+    (he : encT ty v = some bs) (hlen : bs.length < 2 ^ 64) : decT ty bs = .ok v := by
+  unfold encT at he
+  cases hi : enc ty v with
+  | none => simp [hi] at he
+  | some i =>
+    simp [hi] at he; subst he
+    simp [decT, decode_encode i hlen, dec_enc ty hs v i hi]
+
+/-- accept ⇒ canonical for every canonical schema: accepted bytes are exactly the encoding of the decoded value. -/
+theorem typed_canonical (ty : Ty) (hc : Canonical ty = true) (bs : List UInt8) (v : Val) :
+    decT ty bs = .ok v → encT ty v = some bs := by
+  intro h
+  unfold decT at h
+  split at h
+  · simp at h
+  · next i hi =>
+    have h1 := enc_dec ty hc i v h
+    have h2 := encode_decode bs i hi
+    simp [encT, h1, h2]
+
+/-- consequence: under a canonical schema two accepted byte strings with equal values are equal (one encoding, one hash) -/
+theorem typed_unique_encoding (ty : Ty) (hc : Canonical ty = true) (bs1 bs2 : List UInt8) (v : Val) :
+    decT ty bs1 = .ok v → decT ty bs2 = .ok v → bs1 = bs2 := by
+  intro h1 h2
+  have e1 := typed_canonical ty hc bs1 v h1
+  have e2 := typed_canonical ty hc bs2 v h2
+  rw [e1] at e2; exact Option.some.inj e2
+
+/-! ## the generated table (decided over the finite list regenerated from /repo) -/
+
+/-- every generated schema is well-shaped for the round-trip theorem -/
+theorem sound_schemas : ∀ p ∈ Gen.schemas, Sound p.2 = true := by decide
+
+/-- `Canonical` fails for exactly the schemas the translator listed (those containing an `rlp:"nil"` pointer or one
+of the three lossy hand-written codecs) and holds for all others. -/
 theorem canonical_schemas :
     ∀ p ∈ Gen.schemas, Canonical p.2 = !(Gen.nonCanonicalNames.contains p.1) := by decide
+
+theorem typed_roundtrip_generated : ∀ p ∈ Gen.schemas, ∀ v bs,
+    encT p.2 v = some bs → bs.length < 2 ^ 64 → decT p.2 bs = .ok v :=
+  fun p hp v bs => typed_roundtrip p.2 (sound_schemas p hp) v bs
+
+/-- the full statement: every generated wire/disk schema accepts only canonical bytes.  FALSE of the code that exists
+(see the four `_counterexample`s); kept visible. -/
+def typed_canonical_generated_statement : Prop :=
+  ∀ p ∈ Gen.schemas, ∀ bs v, decT p.2 bs = .ok v → encT p.2 v = some bs
+
+/-- what is true: all generated schemas outside the listed ones -/
+theorem typed_canonical_generated_partial : ∀ p ∈ Gen.schemas, Gen.nonCanonicalNames.contains p.1 = false →
+    ∀ bs v, decT p.2 bs = .ok v → encT p.2 v = some bs := by
+  intro p hp hn bs v
+  have := canonical_schemas p hp
+  rw [hn] at this
+  exact typed_canonical p.2 this bs v
+
+/-! ## the non-canonical codecs: negation proved on the model with concrete witnesses (replayed on the real code by
+the harness probes F-C14a…d) -/
+
+/-- executable check: `bs` is accepted and re-encodes to something else -/
+def nonCanonWitness (ty : Ty) (bs : List UInt8) : Bool :=
+  match decT ty bs with
+  | .ok v => decide (encT ty v ≠ some bs)
+  | .error _ => false
+
+theorem witness_spec (ty : Ty) (bs : List UInt8) (h : nonCanonWitness ty bs = true) :
+    ∃ v, decT ty bs = .ok v ∧ encT ty v ≠ some bs := by
+  unfold nonCanonWitness at h
+  split at h
+  · next v hv => exact ⟨v, hv, by simpa using h⟩
+  · simp at h
+
+/-- F-C14d: a transaction whose recipient is the empty LIST 0xC0 is accepted as a contract creation and re-encodes
+with 0x80 (rlp:"nil" pointer decoder). -/
+def txWitness : List UInt8 := [0xc9, 0x80, 0x80, 0x80, 0xc0, 0x80, 0x80, 0x80, 0x80, 0x80]
+theorem nilptr_counterexample : ∃ v, decT Gen.types_Transaction txWitness = .ok v ∧ encT Gen.types_Transaction v ≠ some txWitness :=
+  witness_spec _ _ (by decide)
+
+/-- F-C14b: a validator index listing the same address twice is accepted and re-encodes with one entry. -/
+def indexWitness : List UInt8 :=
+  [0xea, 0x94] ++ List.replicate 20 0x11 ++ [0x94] ++ List.replicate 20 0x11
+theorem addrSet_counterexample : ∃ v, decT Gen.state_ValidatorIndex indexWitness = .ok v ∧ encT Gen.state_ValidatorIndex v ≠ some indexWitness :=
+  witness_spec _ _ (by decide)
+
+/-- F-C14c: double-sign evidence with a 1-byte "hash" is accepted and re-encodes with the hash padded to 32 bytes. -/
+def doubleSignWitness : List UInt8 := [0xc6, 0x80, 0x80, 0xc3, 0xc2, 0x07, 0x80]
+theorem dsMap_counterexample : ∃ v, decT Gen.staking_EvidenceDoubleSign doubleSignWitness = .ok v ∧ encT Gen.staking_EvidenceDoubleSign v ≠ some doubleSignWitness :=
+  witness_spec _ _ (by decide)
+
+/-- F-C14a: a validator record ending in Expelled = 2 is accepted and re-encodes with Expelled = 0. -/
+def validatorWitness : List UInt8 :=
+  [0xf8, 0x42, 0xf8, 0x3f, 0x80, 0x94] ++ List.replicate 20 0x22 ++ [0x94] ++ List.replicate 20 0x33 ++
+  [0x80, 0x80, 0x80, 0x80, 0x80, 0x80, 0x80, 0x80, 0x80, 0x80, 0x80, 0x80, 0x80, 0x80, 0x80, 0x80, 0xc0, 0xc2, 0x80, 0x80] ++ [0x02]
+theorem expelled_counterexample : ∃ v, decT Gen.state_Validator validatorWitness = .ok v ∧ encT Gen.state_Validator v ≠ some validatorWitness :=
+  witness_spec _ _ (by decide)
+
+/-- hence the full statement is false of the code that exists -/
+theorem typed_canonical_generated_false : ¬ typed_canonical_generated_statement := by
+  intro h
+  obtain ⟨v, hd, hne⟩ := nilptr_counterexample
+  exact hne (h ("types.Transaction", Gen.types_Transaction) (by simp [Gen.schemas]) txWitness v hd)
+
+/-! ## non-vacuity (tests on literals, labelled as such) -/
+
+-- the hypotheses of `typed_roundtrip` are met by a real header-sized schema and a concrete value
+example : Sound Gen.types_Header = true := by decide
+example : encT Gen.you_HashOrNumber (.list [.bytes (List.replicate 32 7), .num 300]) =
+    some ([0xe4, 0xa0] ++ List.replicate 32 7 ++ [0x82, 0x01, 0x2c]) := by decide
+-- `typed_canonical` applies to e.g. the header, the consensus payloads and the staking messages
+example : Canonical Gen.types_Header = true ∧ Canonical Gen.ucon_Message = true ∧ Canonical Gen.staking_Message = true := by decide
+-- `decode` rejects each non-canonical form (tests)
+example : decode [0x81, 0x05] = .error .nonCanonicalByte := rfl
+example : decode [0xb8, 0x01, 0xff] = .error .nonCanonicalSize := rfl
+example : decode [0xb9, 0x00, 0x40] = .error .nonCanonicalSize := rfl
+example : decode [0xbf, 0xff, 0xff, 0xff, 0xff, 0xff, 0xff, 0xff, 0xff] = .error .tooLarge := rfl
+example : decode [0xc2, 0x83, 0x01] = .error .tooLarge := rfl
+example : decode [0xc1, 0x80, 0x80] = .error .trailing := rfl
 
 end YouVerif.C14.Props
